@@ -64,9 +64,9 @@ func c01(c *Ctx) {
 		var mu string
 		switch {
 		case fld != nil && fld == fE.Origin():
-			mu = ".batchMutex"
+			mu = resolvePath(ix.Pkg, "batchSpanProcessor", ".batchMutex")
 		case fld != nil && fld == fSspExp.Origin():
-			mu = ".exporterMu"
+			mu = resolvePath(ix.Pkg, "simpleSpanProcessor", ".exporterMu")
 		default:
 			c.Violation("R2", key, ix.at(s), "ExportSpans is called on something other than the processor's own exporter field: no mutex is known to serialise this call")
 			continue
@@ -111,7 +111,7 @@ func c01(c *Ctx) {
 		bk := pathKey(info, base)
 		bad := false
 		for x := range rs {
-			if rel := le.ReleasesBetween(s.F, a, x, bk+".batchMutex"); rel != nil {
+			if rel := le.ReleasesBetween(s.F, a, x, bk+resolvePath(ix.Pkg, "batchSpanProcessor", ".batchMutex")); rel != nil {
 				c.Violation("R3", key, at(ix.M, rel.N.Pos()), "batchMutex is released between the export call and the reset of batch")
 				bad = true
 			}
@@ -571,6 +571,7 @@ func c01(c *Ctx) {
 	// R8 flush marker handling
 	c.Rule("R8", "E3", "a forceFlushSpan marker taken from queue is never appended to batch; processQueue closes its channel", 2)
 	ffs := lookupType(ix.Pkg, "forceFlushSpan")
+	fFlushed := lookupField(ix.Pkg, "forceFlushSpan", "flushed")
 	if ffs == nil {
 		c.Missing("R8", "sdk/trace.forceFlushSpan")
 	} else {
@@ -653,8 +654,8 @@ func c01(c *Ctx) {
 						// must close the marker's channel before the next receive
 						cl := g.Match(func(n ast.Node) bool {
 							return isCloseOf(info, n, func(e ast.Expr) bool {
-								s, ok := unparen(e).(*ast.SelectorExpr)
-								return ok && s.Sel.Name == "flushed"
+								// the marker's channel field (resolved, so a renamed field is still found)
+								return fFlushed != nil && isField(info, e, fFlushed)
 							})
 						})
 						cls := map[*GNode]bool{}
@@ -682,6 +683,7 @@ func c01(c *Ctx) {
 // timer-triggered export, enqueue dispatch on BlockOnQueueFull).
 func c01More(c *Ctx, ix *PkgIndex) {
 	info := ix.Pkg.TypesInfo
+	fFlushed := lookupField(ix.Pkg, "forceFlushSpan", "flushed")
 	exportSpans := ix.Func("(*batchSpanProcessor).exportSpans")
 	if exportSpans == nil {
 		return
@@ -697,7 +699,7 @@ func c01More(c *Ctx, ix *PkgIndex) {
 			if cl, ok := n.(*ast.CompositeLit); ok {
 				for _, el := range cl.Elts {
 					if kv, ok := el.(*ast.KeyValueExpr); ok {
-						if id, ok := kv.Key.(*ast.Ident); ok && id.Name == "flushed" {
+						if id, ok := kv.Key.(*ast.Ident); ok && fFlushed != nil && info.Uses[id] == types.Object(fFlushed) {
 							flushCh = objOf(info, kv.Value)
 						}
 					}
